@@ -182,7 +182,7 @@ func c11MapOrder(w *World, r *Report) {
 				bad := ""
 				ast.Inspect(rs.Body, func(x ast.Node) bool {
 					if ce, ok := x.(*ast.CallExpr); ok {
-						if f := calleeOf(p, ce); f != nil && phase[f.Name()] && w.InRepoObj(f) {
+						if f := calleeOf(p, ce); f != nil && phase[nm(f)] && w.InRepoObj(f) {
 							bad = f.Name()
 						}
 					}
